@@ -91,10 +91,10 @@ def history_strategy(max_ops=30, backends=("fs", "fsc", "mem"), overrides=False,
             elif kind == "list_mementos":
                 ops.append([kind, f, draw(st.sampled_from([None, None, 1, 2]))])
             elif kind == "write_meta":
-                ops.append([kind, f, a, draw(st.sampled_from(["log", "log", "k2"])),
+                ops.append([kind, f, a, draw(st.sampled_from(["log", "log", "k2", "st:fin"])),
                             draw(st.binary(max_size=6)).hex()])
             elif kind == "read_meta":
-                ops.append([kind, f, a, draw(st.sampled_from(["log", "k2"]))])
+                ops.append([kind, f, a, draw(st.sampled_from(["log", "k2", "st:fin"]))])
             elif kind in ("isall", "getmany"):
                 m = draw(st.integers(1, 3))
                 ops.append([kind, [list(draw(st.sampled_from(keypool))) for _ in range(m)]])
